@@ -9,6 +9,7 @@
 -- `Total O` = every field inversion returns (no `hang`); it is only assumed where the code inverts.
 import WinterProofs.Lemmas.C20Batch
 import WinterProofs.Lemmas.C20Gen
+import WinterProofs.Lemmas.C20GenRlz
 import WinterProofs.Lemmas.C20Div
 import Mathlib.Algebra.Field.Rat
 
@@ -379,8 +380,8 @@ example : batchInversion OQ [2, 0, 4, 0] = .ok [1/2, 0, 1/4, 0] ∧ batchInversi
 field-generic over an operations record, vectors as lists, index loops as structural recursion, `v[i]` with its
 bound in `_ok`.  For EVERY operations record `O` of the model and all inputs the regenerated function is the model
 function the theorems above are about and its no-panic condition holds.  (Proved: `eval`, `add`, `sub`, `mul_by_scalar`,
-`degree_of` here, `div`, `serial_batch_inversion`, `mul` below; the other translated functions — `syn_div`,
-`syn_div_in_place`, `syn_div_roots_in_place`, `remove_leading_zeros`, `fill_zero_roots`, `poly_from_roots`,
+`degree_of` here, `div`, `serial_batch_inversion`, `mul`, `remove_leading_zeros` below; the other translated
+functions — `syn_div`, `syn_div_in_place`, `syn_div_roots_in_place`, `fill_zero_roots`, `poly_from_roots`,
 `fill_power_series` — are evaluated next to the model by the driver on every line.) -/
 theorem gen_polynom_eq_model {α : Type} (O : Model.Poly.Ops α) (p q : List α) (x : α) :
     (Gen.Polynom.eval O.toX p x = Model.Poly.eval O p x ∧ Gen.Polynom.eval_ok O.toX p x = true) ∧
@@ -416,5 +417,13 @@ theorem gen_mul_eq_model {α : Type} (O : Model.Poly.Ops α) (a b : List α)
     Model.Poly.mul O a b = if Gen.Polynom.mul_ok O.toX a b = true then .ok (Gen.Polynom.mul O.toX a b)
       else .panic "index out of bounds" :=
   C20G.gen_mul_eq O a b hlen
+
+/-- ★ `remove_leading_zeros` (regenerated top-down scan with its early `return` of the slice `values[..i + 1]`) IS
+    the model's, for every vector a `usize` can index, and its index, increment and slice bounds never fail -/
+theorem gen_remove_leading_zeros_eq_model {α : Type} (O : Model.Poly.Ops α) (p : List α)
+    (hp : p.length < 18446744073709551616) :
+    Gen.Polynom.remove_leading_zeros O.toX p = Model.Poly.removeLeadingZeros O p ∧
+    Gen.Polynom.remove_leading_zeros_ok O.toX p = true :=
+  C20G.gen_remove_leading_zeros_eq O p hp
 
 end WinterProofs.C20
